@@ -21,7 +21,7 @@ ASSUMPTIONS = [
     "contexts of tasks awaited by several parents are unconstrained while a shared descendant runs (the statement says 'only it')",
     "failing pause()/resume() callbacks are exercised under C08, not here",
 ]
-UNIT_TIMEOUT = {"quick": 240, "thorough": 2400}
+UNIT_TIMEOUT = {"quick": 150, "thorough": 2400}
 
 COMMON = dict(
     p_item_fault=0.05,
